@@ -15,7 +15,15 @@ N_ARGS = 3
 N_ALLOCS = 3
 
 
+VIEWS = {"%w0": ("%b0", 0), "%w1": ("%b0", 2), "%w2": ("%b1", 1)}
+TS1 = 'memref<2xi32, "L1">'
+
+
 def buf_type(b):
+    if b in VIEWS:
+        return f'memref<2xi32, strided<[1], offset: {VIEWS[b][1]}>, "L1">'
+    if b == "%s0":
+        return TS1
     return T3 if b.startswith("%a") else T1
 
 
@@ -35,6 +43,7 @@ def default_profile(rng):
         "zero_trips": True,
         "nested_loops": True,
         "l3_kernels": False,
+        "views": False,
     }
 
 
@@ -66,6 +75,12 @@ class BufGen:
         k = r.choices(kinds, w)[0]
         self.count += 1
         self.tag += 1
+        small = list(VIEWS) + ["%s0"]
+        if p.get("views") and k in ("copy", "gen") and r.random() < 0.5:
+            s, d = r.sample(small, 2)
+            if k == "copy":
+                return {"k": "copy", "src": s, "dst": d, "tag": self.tag}
+            return {"k": "gen", "ins": [s], "out": d, "tag": self.tag}
         if k == "copy":
             s, d = r.sample(self.bufs(), 2)
             return {"k": "copy", "src": s, "dst": d, "tag": self.tag}
@@ -92,7 +107,7 @@ class BufGen:
         return node
 
     def program(self):
-        return {"body": self.stmts(self.p["top_stmts"], 0, [], False)}
+        return {"body": self.stmts(self.p["top_stmts"], 0, [], False), "views": bool(self.p.get("views"))}
 
 
 def generic_text(ins, out, tag):
@@ -152,6 +167,10 @@ def emit(ast) -> str:
         e(2, f"%c{c} = arith.constant {c} : index")
     for i in range(N_ALLOCS):
         e(2, f"%b{i} = memref.alloc() {{vsite = {i} : i64}} : {T1}")
+    if ast.get("views"):
+        for w, (b, off) in VIEWS.items():
+            e(2, f"{w} = memref.subview {b}[{off}][2][1] : {T1} to {buf_type(w)}")
+        e(2, f"%s0 = memref.alloc() {{vsite = 7 : i64}} : {TS1}")
     stmts(2, ast["body"])
     e(2, "func.return")
     e(1, "}")
